@@ -229,7 +229,9 @@ func (c *Config) handleSvcEndpointUpdate(svcName string, added, removed []*servi
 		validAdded = append(validAdded, endpoint)
 	}
 
-	if sw.Config == nil {
+	// nothing to announce while the endpoint list is still unknown (a removal
+	// before any addition leaves it nil): the add event follows the first addition.
+	if sw.Config == nil || sw.Endpoints == nil {
 		return
 	}
 	switch oldEndpoints {
